@@ -77,6 +77,86 @@ theorem C03_gen_id_walks2_eq_arms :
 theorem C03_gen_edgeId2 (d : Nat) :
     (do let b ← rB (X := X) Gen.edgeIdImage2 d; if b = 0 then pure d else pure (min b d)) = edgeId2 d := rfl
 
+/-! ## the cell iterators -/
+
+theorem zip_self_map {α β : Type} (f : α → β) (l : List α) : l.zip (l.map f) = l.map (fun d => (d, f d)) := by
+  induction l with
+  | nil => rfl
+  | cons a t ih => simp [ih]
+
+theorem zip_range_flags (u : Nat → Bool) (n : Nat) :
+    (List.range' 1 (n - 1)).zip (((List.range n).map u).drop 1) = (List.range' 1 (n - 1)).map (fun d => (d, u d)) := by
+  have h : ((List.range n).map u).drop 1 = (List.range' 1 (n - 1)).map u := by
+    rw [← List.map_drop, List.range_eq_range']
+    congr 1
+    cases n with
+    | zero => rfl
+    | succ k => simp [List.range'_succ]
+  rw [h, zip_self_map]
+
+theorem range_filter_nz (p : Nat → Bool) (n : Nat) :
+    (List.range n).filter (fun d => decide (d ≠ 0) && p d) = (List.range' 1 (n - 1)).filter p := by
+  cases n with
+  | zero => rfl
+  | succ k =>
+    rw [List.range_eq_range', List.range'_succ]
+    simp only [List.filter_cons, ne_eq, not_true_eq_false, decide_false, Bool.false_and, Bool.false_eq_true, if_false,
+      Nat.add_sub_cancel, Nat.zero_add]
+    apply List.filter_congr
+    intro d hd
+    have : d ≠ 0 := by
+      have := (List.mem_range'_1.1 hd).1; omega
+    simp [this]
+
+/-- a cell iterator as translated: the dart range `start..n_darts` zipped with the removal flags after skipping `skip` of
+    them, the darts whose flag is set dropped (`dropFlagged = 1`), then the darts that are their own identifier kept -/
+def interpCellIter (m : Map X) (idf : Nat → P X Nat) (start skip dropFlagged : Nat) : List Nat :=
+  (((List.range' start (m.n - start)).zip (((List.range m.n).map m.unused).drop skip)).filterMap
+      (fun p => if p.2 == (dropFlagged == 1) then none else some p.1)).filter
+    (fun d => okVal (run (idf d) m) 0 = d)
+
+/-- with the parameters every iterator of the code has (range from 1, one flag skipped, flagged darts dropped) the
+    translated iterator is `iterCells` -/
+theorem interpCellIter_eq (m : Map X) (idf : Nat → P X Nat) : interpCellIter m idf 1 1 1 = iterCells m idf := by
+  unfold interpCellIter iterCells
+  rw [zip_range_flags, List.filterMap_map]
+  have h1 : List.filterMap ((fun p : Nat × Bool => if p.2 == ((1 : Nat) == 1) then none else some p.1) ∘ fun d => (d, m.unused d))
+      (List.range' 1 (m.n - 1)) = (List.range' 1 (m.n - 1)).filter (fun d => !m.unused d) := by
+    rw [← List.filterMap_eq_filter]
+    apply List.filterMap_congr
+    intro d _
+    cases h : m.unused d <;> simp [h, Option.guard]
+  rw [h1, List.filter_filter]
+  have := range_filter_nz (fun d => decide (okVal (run (idf d) m) 0 = d) && (!m.unused d)) m.n
+  rw [← this]
+  apply List.filter_congr
+  intro d _
+  by_cases h0 : d = 0 <;> cases hu : m.unused d <;> by_cases hv : okVal (run (idf d) m) 0 = d <;> simp [h0, hu, hv]
+
+/-- **C03, tie of the cell iterators**: `iter_vertices`, `iter_edges`, `iter_faces` of a 2-map and `iter_vertices`, …,
+    `iter_volumes` of a 3-map as translated from the source — range start, number of flags skipped, which darts the flag
+    filter drops, which identifier function — are `iterCells` over the corresponding identifier -/
+theorem C03_gen_cell_iters :
+    Gen.cellIters2 = [[0, 1, 1, 1], [1, 1, 1, 1], [2, 1, 1, 1]] ∧
+    Gen.cellIters3 = [[0, 1, 1, 1], [1, 1, 1, 1], [2, 1, 1, 1], [3, 1, 1, 1]] := by decide
+
+theorem C03_gen_iterators2 (m : Map X) :
+    interpCellIter m (vertexId2 m.n) 1 1 1 = iterVertices2 m ∧ interpCellIter m edgeId2 1 1 1 = iterEdges2 m ∧
+    interpCellIter m (faceId2 m.n) 1 1 1 = iterFaces2 m :=
+  ⟨interpCellIter_eq m _, interpCellIter_eq m _, interpCellIter_eq m _⟩
+
+theorem C03_gen_iterators3 (m : Map X) :
+    interpCellIter m (vertexId3 m.n) 1 1 1 = iterVertices3 m ∧ interpCellIter m (edgeId3 m.n) 1 1 1 = iterEdges3 m ∧
+    interpCellIter m (faceId3 m.n) 1 1 1 = iterFaces3 m ∧ interpCellIter m (volumeId3 m.n) 1 1 1 = iterVolumes3 m :=
+  ⟨interpCellIter_eq m _, interpCellIter_eq m _, interpCellIter_eq m _, interpCellIter_eq m _⟩
+
+/-- an iterator that forgets to skip the flag of the null dart (the seeded changes C03-2 / C03-5) is a different list:
+    on a 3-dart map whose dart 1 is removed it reports dart 1 and drops dart 2 -/
+example : interpCellIter (X := Val) { n := 3, b := #[#[0,0,0],#[0,0,0],#[0,0,0]], u := #[false, true, false], a := #[#[none,none,none]] }
+    edgeId2 1 0 1 = [1] ∧
+    interpCellIter (X := Val) { n := 3, b := #[#[0,0,0],#[0,0,0],#[0,0,0]], u := #[false, true, false], a := #[#[none,none,none]] }
+    edgeId2 1 1 1 = [2] := by decide
+
 /-- the vertex walk pushes the images of the `Vertex` policy (as a set: the order differs) -/
 theorem C03_gen_vertex_walk_same_images :
     ((Gen.idPushes3.lookup 0).getD []).all (fun p => ((Gen.orbitArms3.lookup 0).getD []).contains p) = true ∧
